@@ -22,6 +22,8 @@ def run(ctx):
     ctx.guard("verdict", "oneshot", lambda: aead.check_oneshot_verdict(ctx, P))
     ctx.guard("tag-eq", "Tag", lambda: aead.check_tag_eq(ctx, P))
     ctx.guard("cmp", "array", lambda: aead.check_cteq_array(ctx, P))
+    from . import ctshape
+    ctx.guard("shape-eval", "ct aggregates", lambda: ctshape.check(ctx, P))
     # MAC coverage on the decryption path
     ctx.guard("otk", "Context::new", lambda: aead.check_context_new(ctx, P))
     ctx.guard("count", "add_data", lambda: aead.check_counter(ctx, P, "add_data", "aad_len"))
